@@ -186,6 +186,21 @@ func classOf(g string) int {
 	return 2
 }
 
+// cols: the columns a terminal with grapheme clustering shows s in: each cluster in as many as Unicode
+// measures it, and never more than two.
+func cols(s string) int {
+	t, state := 0, -1
+	for len(s) > 0 {
+		var w int
+		_, s, w, state = uniseg.FirstGraphemeClusterInString(s, state)
+		if w > 2 {
+			w = 2
+		}
+		t += w
+	}
+	return t
+}
+
 type local struct {
 	m   map[string]int
 	tab [][]int
@@ -195,7 +210,7 @@ func (l *local) id(g string) int {
 	if id, ok := l.m[g]; ok {
 		return id
 	}
-	l.tab = append(l.tab, []int{uniseg.StringWidth(g), classOf(g)})
+	l.tab = append(l.tab, []int{cols(g), classOf(g)})
 	l.m[g] = len(l.tab)
 	return len(l.tab)
 }
@@ -235,7 +250,9 @@ type Worker struct {
 }
 
 func NewWorker() (*Worker, error) {
-	s, err := sess.Start(sess.Config{Caps: responder.Caps{}, Cols: 120, Rows: 2})
+	// the editors are drawn on a terminal that advertises Unicode core (mode 2027): Vaxis and the terminal
+	// then measure a grapheme cluster the same way (cols below), which is the width fact the oracle is given
+	s, err := sess.Start(sess.Config{Caps: responder.Caps{UnicodeCore: true}, Cols: 120, Rows: 2})
 	if err != nil {
 		return nil, err
 	}
@@ -299,7 +316,7 @@ func Run(c *Ctx, wk *Worker, sc *Scn) (evs []trace.Ev, note string) {
 		ti = textinput.New()
 		if sc.Prompt != "" {
 			ti.SetPrompt(sc.Prompt)
-			promptW = uniseg.StringWidth(sc.Prompt)
+			promptW = cols(sc.Prompt)
 		}
 		reset["enter"], reset["cb"] = "keep", false
 	default:
